@@ -10,6 +10,7 @@ import (
 	"github.com/theQRL/go-qrllib/common"
 	"github.com/theQRL/go-qrllib/xmss"
 	"pgregory.net/rapid"
+	"verifharness/ev"
 	"verifharness/ref/xmssref"
 )
 
@@ -145,3 +146,35 @@ func RefPK(k *xmssref.Key, hf xmss.HashFunction) []byte {
 	pk = append(pk, k.Root()...)
 	return append(pk, k.PubSeed...)
 }
+
+// SpecXMSSVerify is the specification-level acceptance predicate for an extended public
+// key: descriptor rules (signature type XMSS, hash id in {0,1,2}, even height 4..30,
+// signature length 2180+32h) followed by the independent reference verifier. The
+// address-format nibble and the third descriptor byte are not interpreted.
+func SpecXMSSVerify(msg, sig, pk []byte) bool {
+	if len(pk) != 67 {
+		return false
+	}
+	hash, sigType, height, _ := uint(pk[0]&0xf), uint(pk[0]>>4), int(pk[1]&0xf)*2, uint(pk[1]>>4)
+	if sigType != 0 || hash > 2 || height < 4 || height > 30 {
+		return false
+	}
+	if len(sig) != xmssref.SigLen(height) {
+		return false
+	}
+	return xmssref.Verify(xmssref.Hash(hash), height, pk[3:35], pk[35:67], msg, sig)
+}
+
+// LibXMSSVerify calls the library and classifies the outcome.
+// accepted: returned true. refused: returned false or raised one of its string panics.
+func LibXMSSVerify(msg, sig, pk []byte) (accepted bool, out Outcome) {
+	var epk [67]byte
+	copy(epk[:], pk)
+	var res bool
+	o := evTry(func() { res = xmss.Verify(msg, sig, epk) })
+	return res && !o.Panicked, o
+}
+
+type Outcome = ev.Outcome
+
+func evTry(f func()) ev.Outcome { return ev.Try(f) }
